@@ -28,7 +28,14 @@ def main():
         if binary is None:
             print(msg[-4000:]); return 2
         seen = set()
+        todo = []
         for prop, cfg in sorted(PROPS.items()):
+            todo.append((prop, cfg))
+            for extra in cfg.get("also", []):
+                c2 = dict(cfg, engine=extra["engine"])
+                c2["env"] = dict(cfg.get("env", {}), **extra.get("env", {}))
+                todo.append((prop, c2))
+        for prop, cfg in todo:
             eng = cfg["engine"]
             if eng in seen:
                 continue
